@@ -120,6 +120,11 @@ class ClauseRunner(object):
             if dbg:
                 with open(dbg, "a", encoding="utf8") as f:
                     f.write(json.dumps({"clause": self.clause.name, "case": case}, ensure_ascii=False, default=str) + "\n")
+            if st["inconclusive"] >= 6:
+                st["stopped_by_watchdog"] = True
+                # the code under test has become slow on this class of inputs: give up on the clause (reported as inconclusive, exit 2) instead of
+                # spending a watchdog period on each of the remaining cases
+                raise StopClause()
             return None
         except Fail as f:
             if f.sub in self.excluded:
